@@ -43,7 +43,7 @@ var props = map[string]propSpec{
 	"C01": ps("the soundness theorem itself (that checker rules and the reduction rules of three evaluators fit together for every program); user-registered functions", "EQ-FIELDS", "TC", "KINDSW", "LAYOUT", "BC-6", "SIG-1", "EFFECT-6", "BC-1", "BC-7", "SIBLING-9", "EFFECT-2", "CONV", "UN-1"),
 	"C02": ps("'stops exactly when the semantics says undefined' for % on fractional/huge operands and non-finite indices (float->int results are run-time values); nil dereference in general", "EFFECT-2", "TOTAL-1", "SIG-1", "SIBLING-4", "SIBLING-8", "BC-1", "BC-2", "BC-3", "BC-5", "BC-6", "KINDSW", "LAYOUT", "IDENT-2", "SIBLING-7", "CONV"),
 	"C03": ps("equality of results for programs whose meaning depends on user functions; closure compiler and interpreter are compared by shape, not by normal form", "SIBLING-1", "SIBLING-2", "SIBLING-3", "SIBLING-4", "SIBLING-6", "SIBLING-7", "SIBLING-8", "SIBLING-9", "POPORDER-1", "LAZY", "BC-1", "BC-2", "BC-5", "BC-6", "BC-7", "EFFECT-5"),
-	"C04": ps("IEEE arithmetic, the tolerance comparison, rune counting, set semantics, strtotime (a C library), literal decoding: values are not computed by static analysis; only that the VM twin of each built-in is the same expression, that integer rendering is guarded, and that every built-in is registered", "SIBLING-2", "INTGUARD-1", "INTGUARD-2", "SIG-1", "SIG-2", "SETORD-1", "SPEC-1", "SPEC-2", "BC-1", "BC-7", "IDENT-2"),
+	"C04": ps("IEEE arithmetic, the tolerance comparison, rune counting, set semantics, strtotime (a C library), literal decoding: values are not computed by static analysis; only that the VM twin of each built-in is the same expression, that integer rendering is guarded, and that every built-in is registered", "SIBLING-2", "INTGUARD-1", "INTGUARD-2", "SIG-1", "SIG-2", "SETORD-1", "SPEC-1", "SPEC-2", "BC-1", "BC-7", "IDENT-2", "IDENT-1"),
 	"C05": ps("completeness/soundness of Unify as an algorithm (C17); the 'if and only if' as a whole", "TC", "EQ-FIELDS", "UN-1", "KEY-1", "KINDSW", "PAIR-1", "SIBLING-9", "DS~DS-2"),
 	"C06": ps("user-registered lazy functions' own bodies; that a thunk forced twice evaluates twice is the same in all back ends by shape", "LAZY", "SIBLING-3", "SIBLING-8", "SIBLING-6", "SIBLING-7", "POPORDER-1", "BC-3", "DS~DS-2", "DS-9", "TRAVERSE-1", "EFFECT-5"),
 	"C07": ps("whether types.Equals is the right relation for host data of equal shape (C15/C17)", "ENVCHK", "PANIC-1", "EQ-FIELDS", "LAYOUT", "CONV", "EFFECT-2"),
